@@ -14,7 +14,6 @@ use crate::empty_ss;
 
 use super::goal::Goal;
 use super::logic_var::*;
-use super::s_linked_list::*;
 use super::built_in_functions::*;
 use super::built_in_predicates::*;
 use super::substitution_set::*;
@@ -455,18 +454,14 @@ impl Unifiable {
                 }
                 Unifiable::SComplex(new_terms)
             },
-            Unifiable::SLinkedList{term: _, next: _, count: _, tail_var: _} => {
-                let mut this_list = self;
-                let mut new_terms = vec![];
-                let mut vbar = false;  // vertical bar |
-                while let Unifiable::SLinkedList{term: t, next: n,
-                                     count: c, tail_var: tf} = this_list {
-                    new_terms.push(t.recreate_variables(recreated_vars));
-                    if c == 1 && tf { vbar = true; }
-                    this_list = *n;
-                    if this_list == Unifiable::Nil { break; }
-                }
-                return make_linked_list(vbar, new_terms);
+            Unifiable::SLinkedList{term, next, count, tail_var} => {
+                // Rebuild the list node by node, so that its shape (the empty
+                // list, nested lists, counts, the tail variable flag) is kept.
+                let new_term = term.recreate_variables(recreated_vars);
+                let new_next = next.recreate_variables(recreated_vars);
+                return Unifiable::SLinkedList{term: Box::new(new_term),
+                                              next: Box::new(new_next),
+                                              count, tail_var};
             },
             Unifiable::SFunction{name, terms} => {
                 let mut new_terms: Vec<Unifiable> = vec![];
